@@ -525,6 +525,113 @@ Section RefProofs.
   Qed.
 End RefProofs.
 
+Section StepWF.
+  Variable V : Type.
+  Variable op : V -> V -> V * bool.
+  Variable b2v : bool -> V.
+  Variable c : card.
+  Variable return_bool : bool.
+  Variable hidx : list (option nat).
+  Variable lidx : list (list nat).
+
+  Lemma map_fst_flat_map_slots (g : nat -> list (nat * V)) (l : list nat) :
+    (forall o x, In x (g o) -> fst x = o) -> (forall o, length (g o) <= 1) ->
+    map fst (flat_map g l) = filter (fun o => match g o with [] => false | _ => true end) l.
+  Proof.
+    intros Hfst Hlen. induction l as [|o l IH]; simpl; [reflexivity|].
+    rewrite map_app, IH. specialize (Hlen o). pose proof (Hfst o) as Hf.
+    destruct (g o) as [|x [|y r]]; simpl in *; [reflexivity| |lia].
+    rewrite (Hf x (or_introl eq_refl)). reflexivity.
+  Qed.
+
+  Lemma NoDup_app_intro {A} (a b : list A) :
+    NoDup a -> NoDup b -> (forall x, In x a -> In x b -> False) -> NoDup (a ++ b).
+  Proof.
+    induction a as [|x a IH]; intros Ha Hb Hd; simpl; [assumption|].
+    inversion Ha as [|? ? Hn Ha']; subst. constructor.
+    - intros Hin. apply in_app_or in Hin. destruct Hin as [Hin|Hin]; [contradiction|].
+      apply (Hd x); [left; reflexivity|assumption].
+    - apply IH; [assumption|assumption|]. intros y Hy. apply Hd. right. assumption.
+  Qed.
+
+  Lemma NoDup_flat_map_filter {A} (f : A -> list nat) (p : A -> nat -> bool) (l : list A) :
+    NoDup (flat_map f l) -> NoDup (flat_map (fun x => filter (p x) (f x)) l).
+  Proof.
+    induction l as [|x l IH]; simpl; intros H; [constructor|].
+    destruct (NoDup_app_inv _ _ H) as [N1 [N2 D]].
+    apply NoDup_app_intro; [apply NoDup_filter; assumption|apply IH; assumption|].
+    intros o Ho1 Ho2. apply filter_In in Ho1. destruct Ho1 as [Ho1 _].
+    apply in_flat_map in Ho2. destruct Ho2 as [y [Hy Ho2]]. apply filter_In in Ho2. destruct Ho2 as [Ho2 _].
+    apply (D o Ho1). apply in_flat_map. exists y. split; assumption.
+  Qed.
+
+  (* C18 for the join: the sample IDs of an output step vector are pairwise distinct *)
+  Theorem pure_step_ids_unique (lhs rhs : list (nat * V)) :
+    NoDup (all_outs V (rhs_outs c hidx lidx) rhs) ->
+    NoDup (map fst (pure_step V op b2v c return_bool hidx lidx lhs rhs)).
+  Proof.
+    intros Hnd. unfold pure_step.
+    set (g := fun (rs : nat * V) (o : nat) =>
+                match find (feeds V o (lhs_outs c hidx lidx)) lhs with
+                | Some ls => emit V b2v return_bool o (op (snd ls) (snd rs))
+                | None => []
+                end).
+    change (NoDup (map fst (flat_map (fun rs => flat_map (g rs) (rhs_outs c hidx lidx (fst rs))) rhs))).
+    assert (E : map fst (flat_map (fun rs => flat_map (g rs) (rhs_outs c hidx lidx (fst rs))) rhs) =
+                flat_map (fun rs => filter (fun o => match g rs o with [] => false | _ => true end)
+                                           (rhs_outs c hidx lidx (fst rs))) rhs).
+    { induction rhs as [|rs rhs' IH]; simpl; [reflexivity|].
+      rewrite map_app. f_equal.
+      - apply map_fst_flat_map_slots.
+        + intros o x Hx. unfold g in Hx. destruct (find (feeds V o (lhs_outs c hidx lidx)) lhs) as [ls|]; [|destruct Hx].
+          unfold emit in Hx. destruct return_bool; [destruct Hx as [<-|[]]; reflexivity|].
+          destruct (snd (op (snd ls) (snd rs))); [destruct Hx as [<-|[]]; reflexivity|destruct Hx].
+        + intros o. unfold g. destruct (find (feeds V o (lhs_outs c hidx lidx)) lhs) as [ls|]; [|simpl; lia].
+          unfold emit. destruct return_bool; [simpl; lia|]. destruct (snd (op (snd ls) (snd rs))); simpl; lia.
+      - apply IH. unfold all_outs in Hnd. simpl in Hnd. apply NoDup_app_inv in Hnd. tauto. }
+    rewrite E. apply (NoDup_flat_map_filter (fun rs : nat * V => rhs_outs c hidx lidx (fst rs))). exact Hnd.
+  Qed.
+End StepWF.
+
+(* ---- multiplicities: the step as a multiset ------------------------------------ *)
+
+Section RefList.
+  Variable V : Type.
+  Variable op : V -> V -> V * bool.
+  Variable b2v : bool -> V.
+  Variable sigf : labels -> labels.
+  Variable result_metric : labels -> labels -> labels.
+  Variable c : card.
+  Variable return_bool : bool.
+
+  Notation sig_eq := (sig_eq sigf).
+  Notation ref_many := (ref_many V op b2v sigf result_metric c return_bool).
+  Notation ref_res := (ref_res V op c).
+
+  (* what one "many"-side sample contributes *)
+  Definition contribution (one : list (labels * V)) (ls : labels * V) : list (labels * V) :=
+    match find (fun rs => sig_eq (fst ls) (fst rs)) one with
+    | None => []
+    | Some rs =>
+        if negb return_bool && negb (snd (ref_res ls rs)) then []
+        else [(result_metric (fst ls) (fst rs), if return_bool then b2v (snd (ref_res ls rs)) else fst (ref_res ls rs))]
+    end.
+
+  (* a successful evaluation is the concatenation of the contributions, in the order of the "many" side *)
+  Lemma ref_many_list one : forall many seen out,
+    ref_many many one seen = Some out -> out = flat_map (contribution one) many.
+  Proof.
+    induction many as [|ls many IH]; intros seen out H; simpl in H; [inversion H; reflexivity|].
+    simpl. unfold contribution at 1.
+    destruct (find (fun rs => sig_eq (fst ls) (fst rs)) one) as [rs|] eqn:Ef; [|apply (IH _ _ H)].
+    fold (ref_res ls rs) in H.
+    destruct (negb return_bool && negb (snd (ref_res ls rs))) eqn:Eskip; [apply (IH _ _ H)|].
+    match type of H with (if ?d then _ else _) = _ => destruct d end; [discriminate|].
+    match type of H with option_map _ ?r = _ => destruct r as [out'|] eqn:Er end; [|discriminate].
+    simpl in H. inversion H; subst out. simpl. f_equal. apply (IH _ _ Er).
+  Qed.
+End RefList.
+
 (* ---- the operator against the reference, one step --------------------------- *)
 
 Section OperatorProofs.
@@ -767,7 +874,103 @@ Section OperatorProofs.
         apply (NoDup_map_fst_unique rhs); [assumption|assumption|assumption|].
         apply A1; [apply Hids_r; assumption|apply Hids_r; assumption|congruence].
   Qed.
+  (* ---- multiplicities -------------------------------------------------------- *)
+
+  Lemma find_map {A B} (p : B -> bool) (g : A -> B) (l : list A) :
+    find p (map g l) = option_map g (find (fun a => p (g a)) l).
+  Proof. induction l as [|a l IH]; simpl; [reflexivity|]. destruct (p (g a)); [reflexivity|exact IH]. Qed.
+
+  (* the reference's evaluation order, on sample IDs: every "many"-side sample with its partner *)
+  Definition ref_ids : list (nat * V) :=
+    flat_map (fun ls => match nth (fst ls) hidx None with
+                        | Some o =>
+                            match find (fun rs => labels_eqb (sg (nth (fst ls) lhs_series [])) (sg (nth (fst rs) rhs_series []))) rhs with
+                            | Some rs => emit V b2v return_bool o (op (snd ls) (snd rs))
+                            | None => []
+                            end
+                        | None => []
+                        end) lhs.
+
+  Lemma ref_ids_In o v :
+    In (o, v) ref_ids <->
+    exists ls rs, In ls lhs /\ In rs rhs /\ nth (fst ls) hidx None = Some o /\
+                  sg (nth (fst ls) lhs_series []) = sg (nth (fst rs) rhs_series []) /\ emitted ls rs v.
+  Proof.
+    unfold ref_ids. rewrite in_flat_map. split.
+    - intros [ls [Hls H]]. destruct (nth (fst ls) hidx None) as [o'|] eqn:En; [|destruct H].
+      destruct (find _ rhs) as [rs|] eqn:Ef; [|destruct H].
+      apply find_some in Ef. destruct Ef as [Hrs Hk]. apply labels_eqb_eq in Hk.
+      assert (o' = o) by (apply emit_fst in H; simpl in H; congruence). subst o'.
+      apply emit_In in H. destruct H as [He Hv]. exists ls, rs. repeat split; assumption.
+    - intros [ls [rs [Hls [Hrs [Hn [Hk [He Hv]]]]]]]. exists ls. split; [assumption|]. rewrite Hn.
+      destruct (find (fun rs0 => labels_eqb (sg (nth (fst ls) lhs_series [])) (sg (nth (fst rs0) rhs_series []))) rhs) as [rs'|] eqn:Ef.
+      + apply find_some in Ef. destruct Ef as [Hrs' Hk']. apply labels_eqb_eq in Hk'.
+        assert (Hf : fst rs' = fst rs) by (apply A1; [apply Hids_r; assumption|apply Hids_r; assumption|congruence]).
+        assert (rs' = rs) by (apply (NoDup_map_fst_unique rhs); assumption). subst rs'.
+        apply emit_In. split; assumption.
+      + pose proof (find_none _ _ Ef rs Hrs) as Hn'. simpl in Hn'. apply labels_eqb_eq in Hk. congruence.
+  Qed.
+
+  Lemma ref_ids_nodup : NoDup (map fst ref_ids).
+  Proof.
+    unfold ref_ids. assert (Hnd : NoDup lhs) by (apply (NoDup_map_inv fst); assumption).
+    revert Hnd Hids_l Hnd_l. generalize lhs. intros l Hnd Hidl Hndl.
+    induction l as [|ls l IH]; simpl; [constructor|].
+    rewrite map_app. inversion Hnd as [|? ? Hnin Hnd']; subst. simpl in Hndl. inversion Hndl as [|? ? Hnf Hndl']; subst.
+    apply NoDup_app_intro.
+    - destruct (nth (fst ls) hidx None) as [o|]; [|constructor]. destruct (find _ rhs) as [rs|]; [|constructor].
+      unfold emit. destruct return_bool; [repeat constructor; intros []|].
+      destruct (snd (op (snd ls) (snd rs))); simpl; repeat constructor. intros [].
+    - apply IH; [assumption|intros iv Hiv; apply Hidl; right; assumption|assumption].
+    - intros o Ho1 Ho2.
+      destruct (nth (fst ls) hidx None) as [o1|] eqn:E1; [|destruct Ho1].
+      destruct (find _ rhs) as [rs|]; [|destruct Ho1].
+      apply in_map_iff in Ho1. destruct Ho1 as [x [Ex Hx]]. apply emit_fst in Hx. subst o. rewrite Hx in *. clear Hx x.
+      apply in_map_iff in Ho2. destruct Ho2 as [y [Ey Hy]]. apply in_flat_map in Hy. destruct Hy as [ls2 [Hls2 Hy]].
+      destruct (nth (fst ls2) hidx None) as [o2|] eqn:E2; [|destruct Hy].
+      destruct (find _ rhs) as [rs2|]; [|destruct Hy]. apply emit_fst in Hy. rewrite Hy in Ey. subst o2.
+      assert (fst ls = fst ls2) by (eapply hidx_inj; eauto).
+      apply Hnf. rewrite H. apply in_map. assumption.
+  Qed.
+
+  (* relabelled, it is the reference's result - as a list *)
+  Lemma relabel_ref_ids out :
+    ref_operator_step V op b2v on ml incl c return_bool op_drops_name lhs_series rhs_series lhs rhs = Some out ->
+    relabel V on ml incl c return_bool op_drops_name lhs_series rhs_series ref_ids = out.
+  Proof.
+    intros Href. unfold ref_operator_step, ref_step in Href. rewrite Hc in Href.
+    destruct (has_dup_sig V sg (labelled V rhs_series rhs)); [discriminate|].
+    rewrite (ref_many_list V op b2v sg rmetric c return_bool _ _ _ _ Href).
+    unfold relabel, ref_ids, labelled. rewrite flat_map_concat_map, concat_map, map_map.
+    rewrite flat_map_concat_map, map_map. f_equal. apply map_ext_in. intros ls Hls.
+    unfold contribution. simpl fst. rewrite find_map. unfold sig_eq. simpl fst.
+    destruct (find (fun a => labels_eqb (sg (nth (fst ls) lhs_series [])) (sg (nth (fst a) rhs_series []))) rhs) as [rs|] eqn:Ef.
+    - simpl option_map. cbv iota. apply find_some in Ef. destruct Ef as [Hrs Hk]. apply labels_eqb_eq in Hk.
+      assert (Hm : matched sg rhs_series (nth (fst ls) lhs_series []) = true).
+      { unfold matched. apply existsb_exists. exists (nth (fst rs) rhs_series []).
+        split; [apply nth_In; apply Hids_r; assumption|apply key_eq_iff; assumption]. }
+      pose proof (hidx_spec (fst ls) (Hids_l ls Hls)) as Hn. rewrite Hm in Hn. rewrite Hn.
+      unfold ref_res. rewrite Hc. simpl fst. simpl snd.
+      rewrite <- (out_label (fst ls) (fst rs) _ Hn (Hids_r rs Hrs) Hk).
+      unfold emit. destruct return_bool; simpl; [reflexivity|].
+      destruct (snd (op (snd ls) (snd rs))); reflexivity.
+    - simpl option_map. cbv iota. destruct (nth (fst ls) hidx None); reflexivity.
+  Qed.
+
+  (* The step as a multiset: the engine's samples are a permutation of the reference's. *)
+  Theorem operator_step_permutation out :
+    ref_operator_step V op b2v on ml incl c return_bool op_drops_name lhs_series rhs_series lhs rhs = Some out ->
+    Permutation (relabel V on ml incl c return_bool op_drops_name lhs_series rhs_series (pure lhs rhs)) out.
+  Proof.
+    intros Href. rewrite <- (relabel_ref_ids out Href). unfold relabel. apply Permutation_map.
+    apply NoDup_Permutation.
+    - apply (NoDup_map_inv fst). apply pure_step_ids_unique.
+      destruct (operator_step_ok (repeat (dslot V dflt) (length oseries))) as [_ [_ H]]; [apply repeat_length|exact H].
+    - apply (NoDup_map_inv fst). apply ref_ids_nodup.
+    - intros [o v]. rewrite pure_step_In, ref_ids_In. reflexivity.
+  Qed.
 End OperatorProofs.
+
 
 (* ---- output labels = the reference's resultMetric --------------------------- *)
 
@@ -1157,7 +1360,96 @@ Section OperatorProofsOTM.
         destruct Hox as [<-|[]]. destruct Hoy as [->|[]].
         apply (NoDup_map_fst_unique rhs); [assumption|assumption|assumption|]. eapply hidx_inj'; eauto.
   Qed.
+  (* ---- multiplicities -------------------------------------------------------- *)
+
+  Definition ref_ids' : list (nat * V) :=
+    flat_map (fun rs => match nth (fst rs) hidx None with
+                        | Some o =>
+                            match find (fun ls => labels_eqb (sg (nth (fst rs) rhs_series [])) (sg (nth (fst ls) lhs_series []))) lhs with
+                            | Some ls => emit V b2v return_bool o (op (snd ls) (snd rs))
+                            | None => []
+                            end
+                        | None => []
+                        end) rhs.
+
+  Lemma ref_ids_In' o v :
+    In (o, v) ref_ids' <->
+    exists ls rs, In ls lhs /\ In rs rhs /\ nth (fst rs) hidx None = Some o /\
+                  sg (nth (fst rs) rhs_series []) = sg (nth (fst ls) lhs_series []) /\ emitted ls rs v.
+  Proof.
+    unfold ref_ids'. rewrite in_flat_map. split.
+    - intros [rs [Hrs H]]. destruct (nth (fst rs) hidx None) as [o'|] eqn:En; [|destruct H].
+      destruct (find _ lhs) as [ls|] eqn:Ef; [|destruct H].
+      apply find_some in Ef. destruct Ef as [Hls Hk]. apply labels_eqb_eq in Hk.
+      assert (o' = o) by (apply (emit_fst V b2v return_bool) in H; simpl in H; congruence). subst o'.
+      apply (emit_In V b2v return_bool) in H. destruct H as [He Hv]. exists ls, rs. repeat split; assumption.
+    - intros [ls [rs [Hls [Hrs [Hn [Hk [He Hv]]]]]]]. exists rs. split; [assumption|]. rewrite Hn.
+      destruct (find (fun ls0 => labels_eqb (sg (nth (fst rs) rhs_series [])) (sg (nth (fst ls0) lhs_series []))) lhs) as [ls'|] eqn:Ef.
+      + apply find_some in Ef. destruct Ef as [Hls' Hk']. apply labels_eqb_eq in Hk'.
+        assert (Hf : fst ls' = fst ls) by (apply A1; [apply Hids_l; assumption|apply Hids_l; assumption|congruence]).
+        assert (ls' = ls) by (apply (NoDup_map_fst_unique lhs); assumption). subst ls'.
+        apply (emit_In V b2v return_bool). split; assumption.
+      + pose proof (find_none _ _ Ef ls Hls) as Hn'. simpl in Hn'. apply labels_eqb_eq in Hk. congruence.
+  Qed.
+
+  Lemma ref_ids_nodup' : NoDup (map fst ref_ids').
+  Proof.
+    unfold ref_ids'. assert (Hnd : NoDup rhs) by (apply (NoDup_map_inv fst); assumption).
+    revert Hnd Hids_r Hnd_r. generalize rhs. intros l Hnd Hidl Hndl.
+    induction l as [|rs l IH]; simpl; [constructor|].
+    rewrite map_app. inversion Hnd as [|? ? Hnin Hnd']; subst. simpl in Hndl. inversion Hndl as [|? ? Hnf Hndl']; subst.
+    apply NoDup_app_intro.
+    - destruct (nth (fst rs) hidx None) as [o|]; [|constructor]. destruct (find _ lhs) as [ls|]; [|constructor].
+      unfold emit. destruct return_bool; [repeat constructor; intros []|].
+      destruct (snd (op (snd ls) (snd rs))); simpl; repeat constructor. intros [].
+    - apply IH; [assumption|intros iv Hiv; apply Hidl; right; assumption|assumption].
+    - intros o Ho1 Ho2.
+      destruct (nth (fst rs) hidx None) as [o1|] eqn:E1; [|destruct Ho1].
+      destruct (find _ lhs) as [ls|]; [|destruct Ho1].
+      apply in_map_iff in Ho1. destruct Ho1 as [x [Ex Hx]]. apply (emit_fst V b2v return_bool) in Hx. subst o. rewrite Hx in *. clear Hx x.
+      apply in_map_iff in Ho2. destruct Ho2 as [y [Ey Hy]]. apply in_flat_map in Hy. destruct Hy as [rs2 [Hrs2 Hy]].
+      destruct (nth (fst rs2) hidx None) as [o2|] eqn:E2; [|destruct Hy].
+      destruct (find _ lhs) as [ls2|]; [|destruct Hy]. apply (emit_fst V b2v return_bool) in Hy. rewrite Hy in Ey. subst o2.
+      assert (fst rs = fst rs2) by (eapply hidx_inj'; eauto).
+      apply Hnf. rewrite H. apply in_map. assumption.
+  Qed.
+
+  Lemma relabel_ref_ids' out :
+    ref_operator_step V op b2v on ml incl c return_bool op_drops_name lhs_series rhs_series lhs rhs = Some out ->
+    relabel V on ml incl c return_bool op_drops_name lhs_series rhs_series ref_ids' = out.
+  Proof.
+    intros Href. unfold ref_operator_step, ref_step in Href. rewrite Hc in Href.
+    destruct (has_dup_sig V sg (labelled V lhs_series lhs)); [discriminate|].
+    rewrite (ref_many_list V op b2v sg rmetric c return_bool _ _ _ _ Href).
+    unfold relabel, ref_ids', labelled. rewrite flat_map_concat_map, concat_map, map_map.
+    rewrite flat_map_concat_map, map_map. f_equal. apply map_ext_in. intros rs Hrs.
+    unfold contribution. simpl fst. rewrite find_map. unfold sig_eq. simpl fst.
+    destruct (find (fun a => labels_eqb (sg (nth (fst rs) rhs_series [])) (sg (nth (fst a) lhs_series []))) lhs) as [ls|] eqn:Ef.
+    - simpl option_map. cbv iota. apply find_some in Ef. destruct Ef as [Hls Hk]. apply labels_eqb_eq in Hk.
+      assert (Hm : matched sg lhs_series (nth (fst rs) rhs_series []) = true).
+      { unfold matched. apply existsb_exists. exists (nth (fst ls) lhs_series []).
+        split; [apply nth_In; apply Hids_l; assumption|apply labels_eqb_eq; assumption]. }
+      pose proof (hidx_spec' (fst rs) (Hids_r rs Hrs)) as Hn. rewrite Hm in Hn. rewrite Hn.
+      unfold ref_res. rewrite Hc. simpl fst. simpl snd.
+      rewrite <- (out_label' (fst rs) (fst ls) _ Hn (Hids_l ls Hls) Hk).
+      unfold emit. destruct return_bool; simpl; [reflexivity|].
+      destruct (snd (op (snd ls) (snd rs))); reflexivity.
+    - simpl option_map. cbv iota. destruct (nth (fst rs) hidx None); reflexivity.
+  Qed.
+
+  Theorem operator_step_permutation_otm out :
+    ref_operator_step V op b2v on ml incl c return_bool op_drops_name lhs_series rhs_series lhs rhs = Some out ->
+    Permutation (relabel V on ml incl c return_bool op_drops_name lhs_series rhs_series (pure lhs rhs)) out.
+  Proof.
+    intros Href. rewrite <- (relabel_ref_ids' out Href). unfold relabel. apply Permutation_map.
+    apply NoDup_Permutation.
+    - apply (NoDup_map_inv fst). apply pure_step_ids_unique.
+      destruct (operator_step_ok_otm (repeat (dslot V dflt) (length oseries))) as [_ [_ H]]; [apply repeat_length|exact H].
+    - apply (NoDup_map_inv fst). apply ref_ids_nodup'.
+    - intros [o v]. rewrite pure_step_In', ref_ids_In'. reflexivity.
+  Qed.
 End OperatorProofsOTM.
+
 
 Section QueryProofsOTM.
   Variable V : Type.
@@ -1274,73 +1566,6 @@ Section JoinCorollaries.
   Qed.
 End JoinCorollaries.
 
-Section StepWF.
-  Variable V : Type.
-  Variable op : V -> V -> V * bool.
-  Variable b2v : bool -> V.
-  Variable c : card.
-  Variable return_bool : bool.
-  Variable hidx : list (option nat).
-  Variable lidx : list (list nat).
-
-  Lemma map_fst_flat_map_slots (g : nat -> list (nat * V)) (l : list nat) :
-    (forall o x, In x (g o) -> fst x = o) -> (forall o, length (g o) <= 1) ->
-    map fst (flat_map g l) = filter (fun o => match g o with [] => false | _ => true end) l.
-  Proof.
-    intros Hfst Hlen. induction l as [|o l IH]; simpl; [reflexivity|].
-    rewrite map_app, IH. specialize (Hlen o). pose proof (Hfst o) as Hf.
-    destruct (g o) as [|x [|y r]]; simpl in *; [reflexivity| |lia].
-    rewrite (Hf x (or_introl eq_refl)). reflexivity.
-  Qed.
-
-  Lemma NoDup_app_intro {A} (a b : list A) :
-    NoDup a -> NoDup b -> (forall x, In x a -> In x b -> False) -> NoDup (a ++ b).
-  Proof.
-    induction a as [|x a IH]; intros Ha Hb Hd; simpl; [assumption|].
-    inversion Ha as [|? ? Hn Ha']; subst. constructor.
-    - intros Hin. apply in_app_or in Hin. destruct Hin as [Hin|Hin]; [contradiction|].
-      apply (Hd x); [left; reflexivity|assumption].
-    - apply IH; [assumption|assumption|]. intros y Hy. apply Hd. right. assumption.
-  Qed.
-
-  Lemma NoDup_flat_map_filter {A} (f : A -> list nat) (p : A -> nat -> bool) (l : list A) :
-    NoDup (flat_map f l) -> NoDup (flat_map (fun x => filter (p x) (f x)) l).
-  Proof.
-    induction l as [|x l IH]; simpl; intros H; [constructor|].
-    destruct (NoDup_app_inv _ _ H) as [N1 [N2 D]].
-    apply NoDup_app_intro; [apply NoDup_filter; assumption|apply IH; assumption|].
-    intros o Ho1 Ho2. apply filter_In in Ho1. destruct Ho1 as [Ho1 _].
-    apply in_flat_map in Ho2. destruct Ho2 as [y [Hy Ho2]]. apply filter_In in Ho2. destruct Ho2 as [Ho2 _].
-    apply (D o Ho1). apply in_flat_map. exists y. split; assumption.
-  Qed.
-
-  (* C18 for the join: the sample IDs of an output step vector are pairwise distinct *)
-  Theorem pure_step_ids_unique (lhs rhs : list (nat * V)) :
-    NoDup (all_outs V (rhs_outs c hidx lidx) rhs) ->
-    NoDup (map fst (pure_step V op b2v c return_bool hidx lidx lhs rhs)).
-  Proof.
-    intros Hnd. unfold pure_step.
-    set (g := fun (rs : nat * V) (o : nat) =>
-                match find (feeds V o (lhs_outs c hidx lidx)) lhs with
-                | Some ls => emit V b2v return_bool o (op (snd ls) (snd rs))
-                | None => []
-                end).
-    change (NoDup (map fst (flat_map (fun rs => flat_map (g rs) (rhs_outs c hidx lidx (fst rs))) rhs))).
-    assert (E : map fst (flat_map (fun rs => flat_map (g rs) (rhs_outs c hidx lidx (fst rs))) rhs) =
-                flat_map (fun rs => filter (fun o => match g rs o with [] => false | _ => true end)
-                                           (rhs_outs c hidx lidx (fst rs))) rhs).
-    { induction rhs as [|rs rhs' IH]; simpl; [reflexivity|].
-      rewrite map_app. f_equal.
-      - apply map_fst_flat_map_slots.
-        + intros o x Hx. unfold g in Hx. destruct (find (feeds V o (lhs_outs c hidx lidx)) lhs) as [ls|]; [|destruct Hx].
-          unfold emit in Hx. destruct return_bool; [destruct Hx as [<-|[]]; reflexivity|].
-          destruct (snd (op (snd ls) (snd rs))); [destruct Hx as [<-|[]]; reflexivity|destruct Hx].
-        + intros o. unfold g. destruct (find (feeds V o (lhs_outs c hidx lidx)) lhs) as [ls|]; [|simpl; lia].
-          unfold emit. destruct return_bool; [simpl; lia|]. destruct (snd (op (snd ls) (snd rs))); simpl; lia.
-      - apply IH. unfold all_outs in Hnd. simpl in Hnd. apply NoDup_app_inv in Hnd. tauto. }
-    rewrite E. apply (NoDup_flat_map_filter (fun rs : nat * V => rhs_outs c hidx lidx (fst rs))). exact Hnd.
-  Qed.
-End StepWF.
 
 (* ---- C11: the reference step does not depend on the order of its inputs ------- *)
 
@@ -1470,4 +1695,19 @@ Section JoinOrder.
     apply (ref_step_order_independent V op b2v (the_sig on ml) (ref_result_metric op_drops_name return_bool c on ml incl)
              c return_bool _ _ _ _ out out' Pl Pr Href Href').
   Qed.
+  (* the same as multisets: a permutation of the reference's samples *)
+  Theorem join_step_permutation (dflt : V) lhs_series rhs_series :
+    one_side_unique on ml (one_side_series c lhs_series rhs_series) ->
+    (is_one_to_one c = true -> incl = []) ->
+    forall (s : stepT) out, good_step V lhs_series rhs_series s ->
+    ref_operator_step V op b2v on ml incl c return_bool op_drops_name lhs_series rhs_series (snd (fst s)) (snd s) = Some out ->
+    Permutation (step_samples lhs_series rhs_series s) out.
+  Proof.
+    unfold one_side_series, step_samples. destruct (is_one_to_many c) eqn:Hc; intros HA Hincl [[ts lhs] rhs] out [G1 [G2 [G3 G4]]] Href; simpl in *.
+    - eapply (operator_step_permutation_otm V dflt); eauto.
+      intros h l _ _. apply labels_agree. intros H11. destruct c; discriminate.
+    - eapply (operator_step_permutation V dflt); eauto.
+      intros h l _ _. apply labels_agree. exact Hincl.
+  Qed.
 End JoinOrder.
+
